@@ -83,7 +83,9 @@ func TextString(t *rapid.T, label string, maxLen int) string {
 func SmallText(t *rapid.T, label string) string {
 	return rapid.SampledFrom([]string{"", "a", "b", "ab", "abc", "b;c", "zz", "A", "1", "12", "x y",
 		// near-duplicates: trailing / leading blanks, letter case, numeric look-alikes
-		"a ", "a  ", " a", "ab ", "Ab", "aB", "01", "1 ", "1.0", "12 "}).Draw(t, label)
+		"a ", "a  ", " a", "ab ", "Ab", "aB", "01", "1 ", "1.0", "12 ",
+		// strings that spell a keyword or an operator
+		"OR", "in", "true", "NULL", "select", "max", "left", "and", "=", "*"}).Draw(t, label)
 }
 
 // Value draws a valid value for the column type. direct=true allows what SQL
